@@ -99,7 +99,7 @@ theorem shared_eq_of_data {w : WM} (hp : PoolInv w) {a b : Shared} (ha : SharedI
 
 theorem inv_entity {c : CW} (hi : Inv c) {w' : WM} {id : Nat} (hs : Step c.w w' id) (htab : tabOf w' = tabOf c.w)
     (hlive : LiveInv w') (hpool : PoolInv w') (hext : PoolExt c.w.pool w'.pool) (hsh : SharedPooled w')
-    (hcl : Mustache.Model.ArchsClosed w'.deps w'.archs) (hdeps : w'.deps = c.w.deps)
+    (hdeps : w'.deps = c.w.deps)
     (hbuf : w'.buffers = c.w.buffers) (hmk : w'.marked = c.w.marked) (hnt : w'.nthreads = c.w.nthreads) :
     Inv ⟨w', c.issued⟩ := by
   have hslots : w'.slots = c.w.slots := congrArg Tab.slots htab
@@ -109,7 +109,7 @@ theorem inv_entity {c : CW} (hi : Inv c) {w' : WM} {id : Nat} (hs : Step c.w w' 
   refine
   { tinv := by rw [htab]; simpa only [hbuf] using hi.tinv
     pendNodup := by show (createHandles w'.buffers).Nodup; rw [hbuf]; exact hi.pendNodup
-    rows := hs.ok, keys := hs.keys hi.keys, live := hlive, pool := hpool, shared := hsh, closed := hcl
+    rows := hs.ok, keys := hs.keys hi.keys, live := hlive, pool := hpool, shared := hsh
     depsB := by show DepsBounded w'.deps; rw [hdeps]; exact hi.depsB
     locsCover := by
       show w'.slots.length ≤ w'.locs.length
